@@ -192,6 +192,10 @@ MUTANTS = [
     (M, "        y._pair_with(self, 1, x)", "        y._pair_with(self, 1, y)", ['matrices.Relation.__new__'], 'breaks'),
     (M, "        y = Y.Tuple.frombools(zip(*x.bools()))", "        y = Y.Tuple.frombools(x.bools())", ['matrices.Relation.__new__'], 'breaks'),
     (M, "            Y = bitsets.bitset(yname, ymembers, Vector, tuple=Vectors)  # noqa: N806", "            Y = X", ['matrices.Relation.__new__'], 'breaks'),
+    (M, "            X = bitsets.meta.bitset(xname, xmembers, xid, Vector, None, Vectors)  # noqa: N806", "            X = bitsets.bitset(xname, xmembers, Vector, tuple=Vectors)  # noqa: N806", ['matrices.Relation.__new__.unpickle'], 'breaks'),
+    (M, "            Y = bitsets.meta.bitset(yname, ymembers, yid, Vector, None, Vectors)  # noqa: N806", "            Y = bitsets.meta.bitset(yname, ymembers, xid, Vector, None, Vectors)  # noqa: N806", ['matrices.Relation.__new__.unpickle'], 'breaks'),
+    (M, "            xid, yid = _ids", "            yid, xid = _ids", ['matrices.Relation.__new__.unpickle'], 'breaks'),
+    (M, "        if _ids is not None:  # unpickle reconstruction", "        if _ids is None:  # unpickle reconstruction", ['matrices.Relation.__new__', 'matrices.Relation.__new__.unpickle'], 'breaks'),
     (CX, "            if not result.issubset(indexes):\n                raise ValueError('context contains invalid index')", "            pass", ['contexts.fromdict'], 'breaks'),
     (CX, "            if len(result) != len(r):\n                raise ValueError('context contains duplicated values')", "            pass", ['contexts.fromdict'], 'breaks'),
     (CX, "        if lattice is not None and not lattice:\n            raise ValueError('empty lattice')", "        pass", ['contexts.fromdict'], 'breaks'),
